@@ -602,7 +602,29 @@ def runwalk(r):
     return s
 
 
-GENS = {"framealias": framealias, "runwalk": runwalk, "scanclear": scanclear, "stridescan": stridescan, "emptyspin": emptyspin, "deepnest": deepnest, "mulcounter": mulcounter, "tailloop": tailloop, "loopio": loopio, "shiftif": shiftif, "ifnest": ifnest, "uniform": uniform, "nestuse": nestuse, "longrun": longrun, "iopressure": iopressure, "squares": squares, "macro": macro, "pressure": pressure, "affine": affine, "bigconst": bigconst,
+def ifclear(r):
+    """an `if` (a loop that clears its own condition) whose body *reads* a cell x without changing it (copy
+    through a scratch cell and back, or x added into several cells), and right after the `if` a clear or a
+    blind overwrite of x — on data where the `if` is sometimes skipped (the condition is 0, an input, or
+    cleared by an earlier loop): nothing after the join point may be merged into the body"""
+    c0 = r.choice(['', '', ',', '+', ',', '++'])
+    s = c0 + '>' + r.choice([',', ',', '+++', '++']) + '<'              # cell 0: condition, cell 1: x
+    k = r.randint(1, 2)
+    for _ in range(k):
+        body = r.choice(['>[->+>+<<]>>[-<<+>>]<<<',                    # d += x, x restored
+                         '>[->+>+>+<<<]>>>[-<<<+>>>]<<<<',            # d += x, e += x, x restored
+                         '>[->>+<<]>>[-<<+>+>]<<<',                   # x moved away and back, copied to d
+                         '>[->+>+<<]>>[-<<+>>]<[-<.>]<<'])            # ... and the copy printed
+        s += '[' + body + r.choice(['[-]', '-[-]', '[-]']) + ']'
+        s += '>' + r.choice(['[-]', '[-]', ',', '[-]+', '[-]++']) + '<'  # x cleared / overwritten right after the join
+        s += r.choice(['>.>.<<', '>.<', '>>.<.<', '>.>.>.<<<'])
+        if k == 2:
+            s += r.choice([',', '+', '', '>+<' ])                     # the second `if` may run on a different condition
+    s += r.choice(['.>.>.>.', '>.>.', '>>.<.<.'])
+    return s
+
+
+GENS = {"ifclear": ifclear, "framealias": framealias, "runwalk": runwalk, "scanclear": scanclear, "stridescan": stridescan, "emptyspin": emptyspin, "deepnest": deepnest, "mulcounter": mulcounter, "tailloop": tailloop, "loopio": loopio, "shiftif": shiftif, "ifnest": ifnest, "uniform": uniform, "nestuse": nestuse, "longrun": longrun, "iopressure": iopressure, "squares": squares, "macro": macro, "pressure": pressure, "affine": affine, "bigconst": bigconst,
         "roam": roam, "diverge": diverge}
 
 
